@@ -261,13 +261,14 @@ def _put(root, path, name, node):
 def gen_tree(rng, allow_bad=True):
     ctr = _Ctr()
     root = {"dev": 0, "ch": []}
-    nextdev = [1]
+    nextdev = [3]
     for p in SKELETON:
         parent, _, nm = p.rpartition("/")
         pdev = _get(root, parent)["dev"]
         dev = pdev
-        if rng.random() < 0.15:
-            dev = nextdev[0]
+        if rng.random() < 0.2:
+            # a mount point; the device may be one already seen higher up (bind mount)
+            dev = rng.choice([0, 1, 2, nextdev[0]])
             nextdev[0] += 1
         _put(root, parent, nm, {"dev": dev, "ch": []})
     if rng.random() < 0.15:
